@@ -619,11 +619,16 @@ func applyFault(sc *Scenario, class string, r *Rng, shape int) (errLike string) 
 		sc.PTF = 0
 		nh := len(sc.Soil.Horizons)
 		hi := nh - 1 // plainest form: the last horizon
-		switch shape % 3 {
+		switch shape % 4 {
 		case 1:
 			hi = 0
 		case 2:
 			hi = nh / 2
+		case 3:
+			// the texture is a real one, but the line runs with a parameter folder of its own whose tables do not list it
+			// (every other line of the batch uses the shipped tables, which do)
+			sc.ReducedTablesWithout = sc.Soil.Horizons[hi].Texture
+			return strings.TrimSpace(sc.Soil.Horizons[hi].Texture)
 		}
 		sc.Soil.Horizons[hi].Texture = "QQ9"
 		return "QQ9"
